@@ -52,6 +52,8 @@ def translate(src):
     out = []
     exported = []
     for ln in src.splitlines():
+        # C casts of a name, an attribute or a call without nested parentheses: <long> x, <long> c_floor(x), <double> n
+        ln = re.sub(r"<\s*((?:unsigned\s+)?(?:long|int|char|double|Py_ssize_t))\s*>\s*([\w\.]+(?:\([^()]*\))?)", r"_ccast('\1', \2)", ln)
         s = ln.strip()
         ind = ln[: len(ln) - len(ln.lstrip())]
         if s.startswith("cimport") or (s.startswith("from ") and " cimport " in s):
@@ -101,12 +103,22 @@ def translate(src):
         if m:
             out.append("%s%s = %s" % (ind, m.group(1), m.group(2)))
             continue
-        ln = re.sub(r"<\s*long\s*>\s*([\w\.]+\([^()]*\))", r"int(\1)", ln)
         code = ln.split("#")[0]
         if s.startswith("cdef") or s.startswith("cpdef") or re.search(r"<\s*(?:unsigned\s+)?(?:int|long|double|char|float)\s*>", code):
             raise Unsupported("construct outside the emulated subset: " + ln)
         out.append(ln)
     return "\n".join(out), exported
+
+
+def _ccast(t, v):
+    """C cast: double -> integer truncates toward zero, then wraps to the width of the type."""
+    if t == "double":
+        return float(v)
+    if isinstance(v, float):
+        if v != v or v in (float("inf"), float("-inf")):
+            raise Unsupported("cast of a non-finite double to an integer type is undefined behaviour in C")
+        v = int(v)
+    return coerce(t, v)
 
 
 def _c_acos(x):
@@ -147,7 +159,7 @@ def load(path, name="c_common_emu"):
     py, exported = translate(src)
     mod = types.ModuleType(name)
     g = mod.__dict__
-    g.update(_typed=_typed, _coerce=coerce, array=array, PyBytes_GET_SIZE=len, PyByteArray_GET_SIZE=len,
+    g.update(_typed=_typed, _coerce=coerce, _ccast=_ccast, array=array, PyBytes_GET_SIZE=len, PyByteArray_GET_SIZE=len,
              cos=math.cos, acos=_c_acos, fabs=math.fabs, pi=math.pi, c_floor=math.floor)
     try:
         exec(compile(py, path + "<emu>", "exec"), g)
